@@ -16,7 +16,9 @@ func Map(v reflect.Value, f jtypes.Callable) (interface{}, error) {
 
 	v = forceArray(jtypes.Resolve(v))
 
-	var results []interface{}
+	// An empty result is an empty array (not a nil slice,
+	// which encodes as the JSON value null).
+	results := []interface{}{}
 
 	argc := clamp(f.ParamCount(), 1, 3)
 
@@ -41,7 +43,9 @@ func Filter(v reflect.Value, f jtypes.Callable) (interface{}, error) {
 
 	v = forceArray(jtypes.Resolve(v))
 
-	var results []interface{}
+	// An empty result is an empty array (not a nil slice,
+	// which encodes as the JSON value null).
+	results := []interface{}{}
 
 	argc := clamp(f.ParamCount(), 1, 3)
 
